@@ -456,7 +456,7 @@ func finishScalar(t *rapid.T, c *ScalarCase) {
 	}
 	c.Plus = rapid.Bool().Draw(t, "plusForBlank")
 	c.Bare = rapid.Bool().Draw(t, "bareWhenEmpty")
-	c.Lead = rapid.SampledFrom([]string{"", "", "", "time", "time", "unexported", "plain", "all"}).Draw(t, "leadFields")
+	c.Lead = rapid.SampledFrom([]string{"", "", "", "time", "time", "unexported", "plain", "all", "", "", "wide"}).Draw(t, "leadFields")
 }
 
 // genAgain: now and then our URL parameter occurs more than once.
